@@ -35,9 +35,9 @@ NSH = 16
 
 
 def plan(tier, seed):
-    n = 9600 if tier == "quick" else 120000
+    n = 9600 if tier == "quick" else 300000
     jobs = [{"name": "enc%02d" % i, "spec": {"kind": "enc", "n": n // NSH, "i": i}} for i in range(NSH)]
-    m = 128 if tier == "quick" else 2400
+    m = 128 if tier == "quick" else 6000
     jobs += [{"name": "fault%02d" % i, "spec": {"kind": "fault", "n": m // 8, "i": i}} for i in range(8)]
     return jobs
 
